@@ -756,7 +756,7 @@ class World:
                     raise Violation("wrote_on_read", f"context exit rewrote resource {x.rid} that was only read")
         if "bufsize" in o:
             self.check_bufsize("after exit")
-        if c["kind"] == "backend" and "capacity" in o:
+        if c["kind"] == "backend" and "capacity" in o and c.get("cap") is not None:
             if cls.get_buffer_capacity() != c["cap_before"]:
                 raise Violation("capacity_not_restored", f"capacity {cls.get_buffer_capacity()} after exit, "
                                 f"{c['cap_before']} before enter")
